@@ -1,8 +1,13 @@
 #!/bin/bash
-# tools/run_seeded.sh <mutant-name> <prop> [extra bin/check args]: apply seeded/<name>/patch.diff (or /tmp/mut/<name>/MUTANT/patch.diff) to /repo, run the check, undo.
+# tools/run_seeded.sh <mutant-name> <prop> [extra bin/check args]: run the check of <prop> against metrico/qryn with the seeded change
+# seeded/<name>/patch.diff (or /tmp/mut/<name>/MUTANT/patch.diff) applied. The change is applied to a scratch copy of /repo's working
+# tree (VERIF_REPO), not to /repo itself, so that a check running elsewhere at the same time never builds a tree with a seeded change in it.
 N=$1; P=$2; shift 2
 PATCH=/verif/seeded/$N/patch.diff; [ -f $PATCH ] || PATCH=/tmp/mut/$N/MUTANT/patch.diff
-git -C /repo apply $PATCH || { echo "PATCH-FAILED $N"; exit 2; }
-/verif/bin/check $P --no-evidence "$@" > /tmp/seeded-$N-$P.log 2>&1; RC=$?
-git -C /repo checkout -- .
+R=/var/tmp/seeded-repo-$N-$$
+rm -rf $R; mkdir -p $R; rsync -a --exclude .git /repo/ $R/ || exit 2
+(cd $R && git init -q . 2>/dev/null && git apply $PATCH) || { echo "PATCH-FAILED $N"; rm -rf $R; exit 2; }
+rm -rf $R/.git
+VERIF_REPO=$R VERIF_SCRATCH=/var/tmp/verif-scratch-seeded-$N-$$ /verif/bin/check $P --no-evidence "$@" > /tmp/seeded-$N-$P.log 2>&1; RC=$?
+rm -rf $R /var/tmp/verif-scratch-seeded-$N-$$
 echo "SEEDED $N $P exit=$RC $(grep -c '^VIOLATION' /tmp/seeded-$N-$P.log) violations; $(grep '^violated' /tmp/seeded-$N-$P.log | head -2 | cut -c1-300)"
